@@ -6,18 +6,21 @@ PROPS["C16"] = dict(
                              "op.loadref", "op.resolve", "op.probe", "op.expire", "op.racerel", "fault.manifest", "fault.blob",
                              "fault.blob.delivered", "result.lookup.ok", "result.lookup.fail.unknown", "result.lookup.fail.fault",
                              "result.release.layerzero", "result.release.imagezero", "result.relookup.ok", "result.release.err",
-                             "result.racerel.gate", "result.racerel.dropped", "result.racerel.errgate"]),
+                             "result.racerel.gate", "result.racerel.dropped", "result.racerel.errgate", "result.cancel.midfetch"]),
                dict(cmd="storefs", mod="root", model="Model.StoreFS", quick=72, thorough=6000, shard=9, race=200,
                     require=["op.lookup.diff", "op.lookup.blob", "op.lookup.info", "op.lookup.use", "op.lookup.other", "op.use",
                              "op.createother", "op.rmdir", "op.badref", "op.alias", "op.baddigest", "op.pool", "op.expire", "fault.manifest",
                              "fault.blob", "result.lookup.ok", "result.lookup.served-from-tree", "result.lookup.fail.unknown",
-                             "result.lookup.fail.fault", "result.rmdir.layerzero", "result.rmdir.imagezero", "result.relookup.ok"])],
-    rule="store: corpus of 14 hand-written histories + random histories (3..22 ops) of lookup(diff|blob) / info / use / release, the sub-steps of "
+                             "result.lookup.fail.fault", "result.rmdir.layerzero", "result.rmdir.imagezero", "result.relookup.ok",
+                             "result.cancel.midfetch"])],
+    rule="store: corpus of 16 hand-written histories + random histories (3..22 ops) of lookup(diff|blob) / info / use / release, the sub-steps of "
          "getLayer (loadRef, one resolveLayer, getCachedLayer), expiry of the resolver's TTL caches, and a release scheduled (gate hook) between "
-         "cacheLayer and the end of a concurrent resolveLayer; storefs: corpus of 5 + random histories (3..20 client operations) on the FUSE "
+         "cacheLayer and the end of a concurrent resolveLayer; storefs: corpus of 9 + random histories (3..20 client operations) on the FUSE "
          "handlers through go-fuse's NodeFS bridge (path walk + stat diff|blob|info|use|other, creat use|other, rmdir, malformed ref and digest "
          "names, pool, cache expiry); both over 1..3 images of 1..4 layers drawn from 5 eStargz blobs and 2 plain gzip blobs "
-         "(shared between images), with unknown TOC digests, layer digests used as directory names, a non-existing image, manifest-fetch and "
+         "(shared between images), layer descriptors carrying toc.digest annotations that are absent / correct / another layer's / stale / malformed, "
+         "lookups whose client context is cancelled before the call, while a blob request is in flight (gate in the in-memory registry) or after it, "
+         "each followed by fresh lookups, with unknown TOC digests, layer digests used as directory names, a non-existing image, manifest-fetch and "
          "blob-fetch faults scripted per op, groups of 2..4 lookups racing on one image; non-trivial = >= 3 op kinds and a successful lookup; "
          "distinct = distinct (registry, ops, observations)",
     assumptions=[
@@ -32,6 +35,9 @@ PROPS["C16"] = dict(
         "otherwise it succeeds iff the blob fetch succeeds and the blob is eStargz, and the resulting layer's TOC digest is that of the blob",
         "layer.Verify(d) on a layer cached under TOC digest d succeeds (C01 is the property about Verify)",
         "refPool's LRU of 30 manifests never evicts in the histories driven (at most 4 refs); the manifest stays readable once fetched",
+        "the client's context reaches only refPool.loadRef: a lookup whose context is already cancelled is a lookup with a manifest fault; layer "
+        "resolution runs detached from it (context.Background) and the manifest's toc.digest annotations are not read by the store - both are driven, "
+        "not modelled: the model has no such distinction and the implementation must agree with it under them",
         "Layer.Done() calls are modelled (coq/Model/StoreRef.v: handles on the objects of the resolver's TTL cache, closed when out of the cache "
         "and without handle - C10's theorem about util/cacheutil taken as the contract); the harness observes their effect as Check() of every "
         "layer the manager holds after every op",
